@@ -4,6 +4,7 @@ central differences of the velocity callable, an independent DOP853 backward int
 numpy's eigvalsh)."""
 
 import itertools
+import signal
 
 import numpy as np
 
@@ -38,7 +39,8 @@ ASSUMPTIONS = [
     "axis anchors use only what the parameter documentation states (direction of shear velocity; velocity +U "
     "along the horizontal at the centre of the upper cell edge; plate speed along the horizontal on the "
     "upper boundary of the corner flow)",
-    "a pathline that needs more than 5000 velocity evaluations (unchanged tree: <= ~220) is counted as not returned",
+    "a pathline that needs more than 5000 velocity evaluations (unchanged tree: <= ~220) or 10 s of CPU time "
+    "(unchanged tree: ~5 ms) is counted as not returned",
     "the reference integration never uses a velocity evaluated outside the callable's domain (it is repeated with "
     "bounded steps if a trial stage leaves the cell); if it cannot reach rtol 1e-10 within 30000 evaluations "
     "(unchanged tree: <= ~2000) the velocity callable is not smooth along the returned path and the trajectory "
@@ -58,6 +60,7 @@ PAIRS = ["XZ", "XY", "YX", "YZ", "ZX", "ZY"]  # default first (the frame the tes
 DT = [("0", 0.0), ("1e-9", 1e-9), ("0.5", 0.5), ("1", 1.0), ("-1", -1.0), ("1e6", 1e6)]
 SI_SCALES = ["1", "1e-15", "1e6"]
 RHS_BUDGET = 5000
+CPU_BUDGET_S = 10.0  # per pathline (unchanged tree: ~5 ms)
 REF_BUDGETS = (30000, 30000, 150000)  # per pass of the reference integration (unchanged tree: <= ~2000)
 CM_YR = 1.0 / (100.0 * 365.0 * 86400.0)
 
@@ -446,6 +449,27 @@ class _Budget(BaseException):
     pass
 
 
+def _on_alarm(signum, frame):
+    raise _Budget()
+
+
+class _cpu_limit:
+    """Backstop for integrations that never end without calling the counted velocity (a particle
+    chattering on a box face): raises _Budget after `seconds` of CPU time of this process."""
+
+    def __init__(self, seconds):
+        self.seconds = seconds
+
+    def __enter__(self):
+        self.old = signal.signal(signal.SIGVTALRM, _on_alarm)
+        signal.setitimer(signal.ITIMER_VIRTUAL, self.seconds)
+
+    def __exit__(self, *exc):
+        signal.setitimer(signal.ITIMER_VIRTUAL, 0)
+        signal.signal(signal.SIGVTALRM, self.old)
+        return False
+
+
 def _path_setup(key):
     V, _, _ = _mods()
     a, b = key["pair"][0], key["pair"][1]
@@ -526,10 +550,15 @@ def run_path(key):
             _add(res, "returned")
             calls[0] = 0
             try:
-                t, f = P.get_pathline(x0.copy(), u_counted, L, mn.copy(), mx.copy(), ms, regular_steps=rs)
+                with _cpu_limit(CPU_BUDGET_S):
+                    t, f = P.get_pathline(x0.copy(), u_counted, L, mn.copy(), mx.copy(), ms, regular_steps=rs)
             except _Budget:
                 obs.append("budget")
-                V("returned", {"why": f"more than {RHS_BUDGET} velocity evaluations without terminating"}, exc="no_termination")
+                V(
+                    "returned",
+                    {"why": f"no pathline after {RHS_BUDGET} velocity evaluations / {CPU_BUDGET_S} s of CPU time", "rhs_calls": calls[0]},
+                    exc="no_termination",
+                )
                 res["outcomes"].append("no_termination")
                 continue
             except Exception as e:
